@@ -224,6 +224,34 @@ pub fn case(ctx: &Ctx, env: &RealEnv, dir: &std::path::Path, case: u64, seed: u6
     if out.exit != Some(want_exit) {
         rep.violation("exit-status", &format!("exit {:?}, expected {} ({} failing tasks)", out.exit, want_exit, expected_fail.len()), mk());
     }
+    // second invocation: response-file contents get shorter; the commands must see exactly the new content
+    let with_rsp: Vec<usize> = (0..w.proj.steps.len()).filter(|&i| w.proj.steps[i].rsp.is_some()).collect();
+    if !with_rsp.is_empty() && expected_fail.is_empty() {
+        sync_after(&mut w, &proj_before, &inv, &out);
+        for &i in &with_rsp {
+            if let Some((p, c)) = w.proj.steps[i].rsp.clone() {
+                let shorter: String = c.chars().take((c.chars().count() / 2).max(1)).collect();
+                w.proj.steps[i].rsp = Some((p, shorter));
+            }
+        }
+        write_manifest_real(&mut w);
+        let inv2 = RInv { j: inv.j, k: Some(1000), ..Default::default() };
+        scan(&mut w);
+        let pb2 = w.proj.clone();
+        let pred2 = super::predict_inv(&w, &inv2.as_sim_inv());
+        write_plan(env, &w, &inv2, &mut rng);
+        let out2 = run_real(env, &w, &inv2);
+        rep.evaluations += 1;
+        rep.count("rspfile_rewrite_invocations", 1);
+        let hist2 = vec![J::obj().with("tasks", J::i(ntasks)).with("second-invocation", J::s("response files shortened"))];
+        judge_real(ctx, rep, case, &hist2, &pb2, &pred2, &inv2, &out2, &w, &Default::default());
+        let reran: Vec<String> = out2.started();
+        for &i in &with_rsp {
+            if !reran.contains(&w.proj.steps[i].id) {
+                rep.violation("rspfile-change-not-rerun", &format!("step {} has a new response file content but was not re-run", w.proj.steps[i].id), J::obj().with("case", J::i(case)).with("trace", out2.trace_json()));
+            }
+        }
+    }
     let conc = out.max_overlap(&|_| true);
     if big_overlap >= 2 && conc >= 2 {
         let mut sig = fnv(b"c16");
